@@ -29,6 +29,8 @@ THEOREMS = [
     'CpProofs.C15.C15_age_header',
     'CpProofs.C15.C15_no_store',
     'CpProofs.C15.C15_no_store_step',
+    'CpProofs.C15.C15_complete_only',
+    'CpProofs.C15.C15_complete_only_step',
     'CpProofs.C15.C15_invalidate',
     'CpProofs.C15.C15_invalidating_request_not_cached',
     'CpProofs.C15.C15_invalidate_methods',
@@ -192,6 +194,7 @@ class _Env:
         caching.threading = _ThreadingShim()
         self.cur = {}
         self.tls = threading.local()
+        self._errsize = {}
         self.gate = None          # {'thread':, 'cv':, 'inside':, 'open':} while a stampede scenario runs
         env = self
 
@@ -218,11 +221,32 @@ class _Env:
                     h['Cache-Control'] = 'no-store'
                 if plan['pnc']:
                     h['Pragma'] = 'no-cache'
-                resp.status = 200 + g % 3
-                body = (b'g%d;' % g).ljust(plan['size'], b'.') if plan['size'] else b''
                 req = cherrypy.serving.request
+                size = plan['size']
+                body = (b'g%d;' % g).ljust(size, b'.') if size else b''
                 env.tls.prod = {'gen': g, 'hdrs': {k: req.headers.get(k, '') for k in HDRS}, 'body': body,
-                               'time': resp.time}
+                                'time': resp.time}
+                mode = plan.get('mode', 'plain')
+                if mode == 'exc':
+                    raise ValueError('handler failed')
+                if mode == 'http':
+                    raise cherrypy.HTTPError(plan['hstatus'], 'handler says no')
+                resp.status = 200 + g % 3
+                if plan.get('stream'):
+                    resp.stream = True
+                if mode == 'gen':
+                    third = max(1, (size + 2) // 3)
+                    chunks = [body[i:i + third] for i in range(0, size, third)]
+                    fail_at = plan.get('fail_at')
+
+                    def it():
+                        for i, c in enumerate(chunks):
+                            if fail_at is not None and i >= fail_at:
+                                raise ValueError('body iterator failed at chunk %d' % i)
+                            yield c
+                        if fail_at is not None:
+                            raise ValueError('body iterator failed at its end')
+                    return it()
                 return body
 
         self.root = Root()
@@ -245,6 +269,8 @@ class _Env:
                       'tools.caching.maxobj_size': cfg['maxobj_size'],
                       'tools.caching.maxsize': cfg['maxsize'],
                       'tools.caching.antistampede_timeout': cfg.get('timeout'),
+                      'tools.encode.on': bool(cfg.get('encode')),
+                      'request.show_tracebacks': False,
                       'hooks.on_end_resource': self.end_hook}}
         return self.cherrypy.Application(self.root, '', conf)
 
@@ -255,7 +281,7 @@ class _Env:
             del cp._cache
             self.clock.retire(c.expiration_thread)
 
-    def call(self, app, method, path, qs, headers):
+    def call(self, app, method, path, qs, headers, abandon=None):
         environ = {'REQUEST_METHOD': method, 'PATH_INFO': path, 'QUERY_STRING': qs, 'SCRIPT_NAME': '',
                    'SERVER_NAME': 'h', 'SERVER_PORT': '80', 'SERVER_PROTOCOL': 'HTTP/1.1', 'HTTP_HOST': 'h',
                    'wsgi.version': (1, 0), 'wsgi.url_scheme': 'http', 'wsgi.input': io.BytesIO(b''),
@@ -271,12 +297,43 @@ class _Env:
             out['status'] = status
             out['headers'] = list(hs)
         it = app(environ, start_response)
+        chunks, aborted, abandoned = [], False, False
         try:
-            body = b''.join(it)
+            limit = abandon if (abandon is not None and self.tls.prod is not None) else None
+            itr = iter(it)
+            while True:
+                if limit is not None and len(chunks) >= limit:
+                    abandoned = True
+                    break
+                try:
+                    chunks.append(next(itr))
+                except StopIteration:
+                    break
+        except Exception:
+            aborted = True          # the stream broke after the status line was sent
         finally:
             if hasattr(it, 'close'):
-                it.close()
-        return int(out['status'].split()[0]), out['headers'], body
+                try:
+                    it.close()
+                except Exception:
+                    aborted = True
+        return int(out['status'].split()[0]), out['headers'], b''.join(chunks), aborted, abandoned
+
+    def error_page_size(self, status):
+        """len() of the HTTPError page the probe handler raises (a parameter of the model)."""
+        if status not in self._errsize:
+            saved_plan, saved_prod = getattr(self.tls, 'plan', None), getattr(self.tls, 'prod', None)
+            saved_gen = self.cur.get('gen', 0)
+            self.cur.setdefault('gen', 0)
+            self.tls.plan = {'vary': [], 'size': 12, 'ns': False, 'pnc': False, 'mode': 'http', 'hstatus': status}
+            app = self.cherrypy.Application(self.root, '', {'/': {'request.show_tracebacks': False}})
+            st, hs, body, _, _ = self.call(app, 'GET', '/errsize', '', {})
+            self.tls.plan, self.tls.prod = saved_plan, saved_prod
+            self.cur['gen'] = saved_gen
+            if st != status:
+                raise common.HarnessError('error page probe answered %s for %s' % (st, status))
+            self._errsize[status] = len(body)
+        return self._errsize[status]
 
 
 def req_headers(op):
@@ -296,20 +353,29 @@ def do_request(env, app, op, prods):
     env.tls.plan = plan
     env.tls.prod = None
     env.tls.flags = None
-    status, hs, body = env.call(app, method, path, qs, req_headers(op))
+    status, hs, body, aborted, abandoned = env.call(app, method, path, qs, req_headers(op),
+                                                    abandon=plan.get('abandon'))
     hd = {}
     for k, v in hs:
         hd.setdefault(k, v)
     flags = env.tls.flags
     o = {'method': method, 'url': [path, qs], 'status': status, 'headers': [list(x) for x in hs],
          'body': body.decode('latin-1'), 'xgen': hd.get('X-Gen'), 'age': hd.get('Age'),
-         'flags': list(flags) if flags else None, 'time': env.clock.now, 'handler_gen': None}
+         'flags': list(flags) if flags else None, 'time': env.clock.now, 'handler_gen': None,
+         'aborted': aborted, 'abandoned': abandoned}
     p = env.tls.prod
     if p is not None:
         o['handler_gen'] = p['gen']
+        # what the client of this request actually received (HEAD: no body on the wire; the body a GET would
+        # have carried is the handler's, when the handler's own response was the one delivered)
+        if method == 'HEAD':
+            pbody = p['body'].decode('latin-1') if status == 200 + p['gen'] % 3 else None
+        else:
+            pbody = o['body']
         prods[p['gen']] = {'gen': p['gen'], 'url': [path, qs], 'hdrs': p['hdrs'], 'time': p['time'],
-                           'status': status, 'headers': o['headers'], 'body': p['body'].decode('latin-1'),
-                           'vary': list(plan['vary']),
+                           'status': status, 'headers': o['headers'], 'body': pbody,
+                           'complete': not aborted and not abandoned,
+                           'vary': [v.strip() for v in hd.get('Vary', '').split(',') if v.strip()],
                            'req_no_store': bool(cc) and 'no-store' in cc,
                            'resp_no_store': bool(plan['ns'])}
     return o
@@ -492,7 +558,7 @@ def hexlist(xs):
 
 def model_line(case):
     c = case['cfg']
-    out = ['C:%d:%d:%d:%d' % (c['delay'], c['maxobjects'], c['maxobj_size'], c['maxsize'])]
+    out = ['C:%d:%d:%d:%d' % (c['delay'], c['maxobjects'], c['maxobj_size'], c['maxsize'])]   # encode: see docs
     for op in case['ops']:
         if op[0] == 'T':
             out.append('T%d' % op[1])
@@ -501,9 +567,27 @@ def model_line(case):
         else:
             _, method, path, qs, hdrs, pragma, cc, plan = op
             h = ','.join('%s=%s' % (hexs(k), hexs(v)) for k, v in sorted(hdrs.items())) if hdrs else '_'
+            mode = plan.get('mode', 'plain')
+            vary, size = plan['vary'], plan['size']
+            stream = bool(plan.get('stream'))
+            if mode == 'http':
+                # HTTPError.set_response: clean_headers drops Vary, the body is the error page; for the statuses
+                # in _ie_friendly_error_sizes it also presets Content-Length, so finalize does not drain the
+                # body: the tee runs only when the WSGI consumer iterates it, exactly like a streamed body
+                from cherrypy import _cperror
+                vary, size = [], _Env.get().error_page_size(plan['hstatus'])
+                stream = plan['hstatus'] in _cperror._ie_friendly_error_sizes
+            body_fails = mode == 'exc' or (mode == 'gen' and plan.get('fail_at') is not None)
+            # the client goes away only if there is something left to read after `abandon` chunks
+            third = max(1, (plan['size'] + 2) // 3)
+            nchunks = len(range(0, plan['size'], third))
+            ab = plan.get('abandon')
+            goes_away = ab is not None and (ab == 0 or ab < nchunks)
+            flags = ((1 if plan['ns'] else 0) + (2 if plan['pnc'] else 0) + (4 if stream else 0)
+                     + (8 if body_fails else 0) + (16 if goes_away else 0))
             out.append('R:%s:%s:%s:%s:%s:%s:%s:%d:%d' % (
                 hexs(method), hexs(path), hexs(qs), h, hexlist(pragma or []), hexlist(cc or []),
-                hexlist(plan['vary']), plan['size'], (1 if plan['ns'] else 0) + (2 if plan['pnc'] else 0)))
+                hexlist(vary), size, flags))
     return ' '.join(out)
 
 
@@ -558,7 +642,8 @@ def oracle(case, res):
         served_from_cache = o['handler_gen'] is None and o['status'] != 400
         if o['handler_gen'] is not None:
             prod_idx[o['handler_gen']] = i
-            vary_seen.setdefault(url, set()).add(tuple(sorted(plan['vary'])))
+            if o['status'] < 500:
+                vary_seen.setdefault(url, set()).add(tuple(sorted(prods[o['handler_gen']]['vary'])))
             if o['flags'] and o['flags'][0]:
                 bad.append(('op %d: handler ran but request.cached is true' % i, 'cached_flag_wrong'))
         if served_from_cache:
@@ -573,10 +658,18 @@ def oracle(case, res):
                 bad.append(('%s: response (status %s) came neither from the handler nor from a stored handler '
                             'response' % (where, o['status']), 'hit_unknown_generation'))
             else:
-                # identical in status, body and stored headers
+                # the producing response was produced and delivered to its end
+                if not p['complete']:
+                    bad.append(('%s: served generation %d, a response whose delivery broke off (handler body '
+                                'failed mid-stream or its client went away)' % (where, g),
+                                'hit_incomplete_production'))
+                # identical in status, body and stored headers (Content-Length is framing: a streamed original
+                # has none)
                 want_body = '' if method == 'HEAD' else p['body']
-                hs = sorted(tuple(x) for x in o['headers'] if x[0] != 'Age')
-                ps = sorted(tuple(x) for x in p['headers'] if x[0] != 'Age')
+                hs = sorted(tuple(x) for x in o['headers'] if x[0] not in ('Age', 'Content-Length'))
+                ps = sorted(tuple(x) for x in p['headers'] if x[0] not in ('Age', 'Content-Length'))
+                if want_body is None:
+                    want_body = o['body']
                 if o['status'] != p['status'] or o['body'] != want_body or hs != ps:
                     bad.append(('%s: cached response differs from what the handler produced as generation %d '
                                 '(status %s/%s, body %r/%r, headers %s/%s)'
@@ -650,7 +743,7 @@ VALUES = ['p', 'q', 'p', 'q', '', 'X-A', 'X-B', 'r']
 def gen_cfg(rng):
     delay = rng.choice([1, 2, 2, 3, 5, 10])
     tight = rng.random() < 0.25
-    return {'delay': delay,
+    return {'delay': delay, 'encode': rng.random() < 0.25,
             'maxobjects': rng.choice([1, 2, 3, 4]) if tight and rng.random() < 0.6 else 1000,
             'maxobj_size': rng.choice([12, 13, 20, 21, 40]) if tight and rng.random() < 0.5 else 100000,
             'maxsize': rng.choice([24, 32, 33, 40, 52, 60, 100]) if tight and rng.random() < 0.6 else 10000000}
@@ -673,6 +766,23 @@ def gen_cc(rng, delay):
         ['max-age='], ['max-age=5', 'max-age=100'], ['max-age=100', 'max-age=%d' % delay], ['no-cache=x'],
         ['only-if-cached'], ['private', ma], ['zzz', ma], ['no-cache', 'max-age=abc'], ['no-store', 'no-cache'],
         ['max-age=007'], ['max-age=' + '9' * 18], ['max-age=1' + '0' * 18], ['max-age=\xb2'], ['public', 'no-store=1'], ['max-age=1=2'], ['xno-cache'], ['no-cachex', ma]])
+
+
+def gen_outcome(rng):
+    """How the handler's answer comes about: plain bytes, a chunk generator (buffered or streamed) that may
+    raise at chunk 0/1/2 or at its end, an exception or HTTPError before any body, a client that goes away."""
+    r = rng.random()
+    if r < 0.60:
+        return {}
+    if r < 0.72:
+        return {'mode': 'gen', 'stream': rng.random() < 0.5}
+    if r < 0.84:
+        return {'mode': 'gen', 'stream': rng.random() < 0.5, 'fail_at': rng.choice([0, 1, 1, 2, 2, 3])}
+    if r < 0.88:
+        return {'mode': 'exc'}
+    if r < 0.94:
+        return {'mode': 'http', 'hstatus': rng.choice([404, 403, 410, 402, 418])}
+    return {'mode': 'gen', 'stream': True, 'abandon': rng.choice([0, 1, 1, 2])}
 
 
 def gen_case(rng, unstable=None, long=False):
@@ -727,6 +837,7 @@ def gen_case(rng, unstable=None, long=False):
         plan = {'vary': vary,
                 'size': rng.choices([0, 12, 20, 40], weights=[5, 50, 30, 15])[0],
                 'ns': rng.random() < 0.06, 'pnc': rng.random() < 0.05}
+        plan.update(gen_outcome(rng))
         ops.append(['R', method, u[0], u[1], hdrs, pragma, cc, plan])
         req_times.append(now)
         nreq += 1
@@ -804,6 +915,11 @@ def check_cases(ctx, cases, compare=True, procs=None):
             if op[0] == 'R':
                 ctx.count('method:' + op[1])
                 ctx.count('vary:%d' % len(op[7]['vary']))
+                pl = op[7]
+                if pl.get('mode'):
+                    ctx.count('handler:%s%s%s%s' % (pl['mode'], ':stream' if pl.get('stream') else '',
+                                                    ':fail@%s' % pl['fail_at'] if pl.get('fail_at') is not None else '',
+                                                    ':abandon' if pl.get('abandon') is not None else ''))
                 if op[6]:
                     ctx.count('cc:' + ('max-age' if any(v.startswith('max-age') for v in op[6]) else op[6][0]))
                 if op[5]:
